@@ -28,11 +28,11 @@ SHAPES = {
     "nested-mutable-struct": "(vf-build-n D (lambda (i acc) (if (= i 0) (vf-mnode LEAF 0) (vf-mnode acc i))))",
     "nested-box": "(vf-build-n D (lambda (i acc) (if (= i 0) (box LEAF) (box acc))))",
     "closure-chain": "(vf-build-n D (lambda (i acc) (if (= i 0) (lambda () LEAF) (lambda () acc))))",
-    "stream": "(vf-build-n D (lambda (i acc) (if (= i 0) (stream-cons LEAF empty-stream) (stream-cons i acc))))",
+    "stream": "(vf-build-n D (lambda (i acc) (if (= i 0) (stream-cons LEAF (lambda () empty-stream)) (let ((rest acc)) (stream-cons i (lambda () rest))))))",
     "mixed": "(vf-build-n D (lambda (i acc) (if (= i 0) (list LEAF) (let ((k (modulo i 5))) (cond ((= k 0) (list acc)) ((= k 1) (vector acc)) ((= k 2) (box acc)) ((= k 3) (vf-node acc i)) (else (cons acc i)))))))",
     "wide-vector": "(make-vector D LEAF)",
     "wide-hash": "(vf-build-n (min D 200000) (lambda (i acc) (if (= i 0) (hash 0 LEAF) (hash-insert acc i i))))",
-    "long-string": "(make-string D #\\\\a)",
+    "long-string": "(make-string D #\\a)",
 }
 NO_EQUAL = ("closure-chain", "stream")
 
@@ -46,6 +46,91 @@ CYCLES = {
     "hash-in-cycle": "(let* ((b (box 0)) (h (hash 'k b))) (set-box! b h) h)",
     "5cycle-mixed": "(let* ((b1 (box 0)) (v (vector b1)) (s (vf-mnode v 1)) (b2 (box s)) (l (list b2))) (set-box! b1 l) l)",
     "closure-self": "(let ((b (box 0))) (set-box! b (lambda () b)) b)",
+    # witnesses of defects found by the seeded-graph exploration (cycles through vectors only)
+    "vector-cycle-with-shared-pair": "(let* ((g0 (vector 0 0)) (g2 (vector 0 g0)) (g3 (cons g2 g2))) (vector-set! g0 0 g2) (vector-set! g2 0 g3) g0)",
+    "hash-in-vector-cycle": "(let* ((v (vector 0 1)) (h (hash 'k v))) (vector-set! v 0 h) h)",
+    "mutable-struct-vector-cycle": "(let* ((s (vf-mnode 0 1)) (v (vector s 2))) (set-vf-mnode-a! s v) v)",
+}
+
+# a deep value held inside a container of another kind (depth 10^5, 1 MB native stack): the outer container's drop /
+# equality / printing code reaches the inner value from inside its own traversal
+WRAPPERS = {
+    "in-vector": "(vector INNER 1)",
+    "in-list": "(list 0 INNER 1)",
+    "in-box": "(box INNER)",
+    "in-hash": "(hash 'k INNER)",
+    "in-struct": "(vf-node INNER 0)",
+    "in-mutable-struct": "(vf-mnode 0 INNER)",
+    "in-closure": "(let ((held INNER)) (lambda () held))",
+    "in-channel": "(let ((c (channels/new))) (channel/send (channels-sender c) INNER) c)",
+    "in-channel-in-vector": "(vector 1 (let ((c (channels/new))) (channel/send (channels-sender c) INNER) c))",
+    "in-channel-in-list": "(list (let ((c (channels/new))) (channel/send (channels-sender c) INNER) c) 2)",
+}
+WRAP_INNER = ["nested-list", "pair-chain-cdr", "pair-chain-car", "nested-mutable-vector", "nested-struct", "nested-box", "closure-chain",
+              "nested-hash-value", "mixed"]
+WRAP_OPS = ["drop-main", "drop-local", "equal-same", "write"]
+OPAQUE_WRAPPERS = ("in-closure", "in-channel", "in-channel-in-vector", "in-channel-in-list")
+
+# rings: one cycle through N mutable containers
+RINGS = {
+    "vector-ring": "(let ((first (vector 0 0))) (let loop ((i 1) (prev first)) (if (< i N) (loop (+ i 1) (vector prev i)) (begin (vector-set! first 0 prev) first))))",
+    "box-ring": "(let ((first (box 0))) (let loop ((i 1) (prev first)) (if (< i N) (loop (+ i 1) (box prev)) (begin (set-box! first prev) first))))",
+    "struct-ring": "(let ((first (vf-mnode 0 0))) (let loop ((i 1) (prev first)) (if (< i N) (loop (+ i 1) (vf-mnode prev i)) (begin (set-vf-mnode-a! first prev) first))))",
+    "vector-list-ring": "(let ((first (vector 0 0))) (let loop ((i 1) (prev first)) (if (< i N) (loop (+ i 1) (if (even? i) (vector prev i) (list i prev))) (begin (vector-set! first 0 prev) first))))",
+}
+RING_OPS = ["build", "equal-same", "collect-live", "drop-main", "channel-send", "write"]
+
+
+def cyclic_graph(r):
+    """A seeded small cyclic object graph of the class on which the unchanged engine is clean: every node holds exactly one
+    reference to another node (no node is reachable along two different paths - shared references into a cycle, and cycles
+    through boxes, mutable struct fields and hash maps, have fixed named witnesses in CYCLES because printing / comparing
+    them is already broken, findings C18-F02..F04, F09, F10), the only mutable kind is the vector.  Node 0 is a mutable
+    vector; node i > 0 refers to node i-1; afterwards node 0 is pointed at a seeded node k >= 0 (a cycle through nodes 0..k,
+    entered from the nodes above k through a tail), and so the cycle is entered through a list, a pair, an immutable vector,
+    a struct or a vector depending on the root.  Returns (definitions text, kinds, edges)."""
+    n = r.randint(2, 6)
+    every = ["mvector", "mvector", "list", "ivector", "pair", "struct"]
+    kinds = ["mvector"] + [r.choice(every) for _ in range(n - 1)]
+    L = []
+    fields = []
+    for i, k in enumerate(kinds):
+        f0 = i - 1 if i > 0 else None
+        fields.append([f0])
+        a = "g%d" % f0 if f0 is not None else "0"
+        first = r.random() < 0.5
+        ctor = {"mvector": "(vector %s %s)", "list": "(list %s %s)", "ivector": "(immutable-vector %s %s)", "pair": "(cons %s %s)",
+                "struct": "(vf-node %s %s)"}[k]
+        # the reference sits in the first or in the second position (a mutable vector is re-pointed through slot 0)
+        L.append("(define g%d %s)" % (i, ctor % ((a, i) if first or k == "mvector" else (i, a))))
+    t = r.randrange(n)
+    L.append("(vector-set! g0 0 g%d)" % t)
+    fields[0][0] = t
+    edges = {i: {x for x in fields[i] if x is not None} for i in range(n)}
+    return "\n".join(L), kinds, edges
+
+
+def cyclic_kinds(kinds, edges, root):
+    """kinds of the nodes that lie on some cycle reachable from `root`"""
+    n = len(kinds)
+    reach = {i: set() for i in range(n)}
+    for i in range(n):
+        todo = list(edges[i])
+        while todo:
+            x = todo.pop()
+            if x not in reach[i]:
+                reach[i].add(x)
+                todo.extend(edges[x])
+    from_root = reach[root] | {root}
+    return sorted({kinds[i] for i in from_root if i in reach[i]})
+
+
+GRAPH_OPS = {
+    "display": "(> (vf-dstr ROOT) 0)",
+    "write": "(> (vf-str ROOT) 0)",
+    "equal-same": "(equal? ROOT ROOT2)",
+    "channel-send": "(begin (define ch (channels/new)) (channel/send (channels-sender ch) ROOT) (channel/recv (channels-receiver ch)) 'received)",
+    "drop": "(begin (set! ROOT #f) (#%verif-full-gc) 'dropped)",
 }
 
 OPS = {
@@ -102,6 +187,43 @@ def main(tier):
             cid = "cyc|%s|%s" % (shape, op)
             meta[cid] = (shape, op, 0, 0, src, True)
             cases.append({"id": cid, "units": [PRELUDE, src], "timeout_ms": 60000, "mem_mb": 8192})
+    # deep values held inside containers of another kind (1 MB native stack: 10 bytes per level overflow it)
+    dw = 100000
+    for wname, w in WRAPPERS.items():
+        for shape in WRAP_INNER:
+            for op in WRAP_OPS:
+                if op in ("equal-same", "write") and (wname in OPAQUE_WRAPPERS or shape in NO_EQUAL):
+                    continue
+                build = w.replace("INNER", SHAPES[shape].replace("D", str(dw)).replace("LEAF", "1"))
+                src = OPS[op].replace("BUILD2", build).replace("BUILD", build)
+                cid = "wrap|%s|%s|%s" % (wname, shape, op)
+                meta[cid] = ("%s-%s" % (shape, wname), op, dw, 1024, src, False)
+                cases.append({"id": cid, "units": [PRELUDE, src], "timeout_ms": 60000 if tier == "quick" else 180000, "mem_mb": 8192, "stack_kb": 1024})
+    # rings through 10^5 mutable containers
+    for shape, b in RINGS.items():
+        for op in RING_OPS:
+            for nring in ([100000] if tier == "quick" else [40000, 100000, 1000000]):
+                bb = b.replace("N", str(nring))
+                src = OPS[op].replace("BUILD2", bb).replace("BUILD", bb)
+                cid = "ring|%s|%s|%d" % (shape, op, nring)
+                meta[cid] = ("%s" % shape, op, nring, 0, src, True)
+                cases.append({"id": cid, "units": [PRELUDE, src], "timeout_ms": 120000, "mem_mb": 8192})
+    # seeded small cyclic graphs, every node as the root of the operation
+    r = core.rng("C18-graphs")
+    for gi in range(40 if tier == "quick" else 400):
+        defs, kinds, edges = cyclic_graph(r)
+        defs2 = defs.replace("g", "h")
+        for root in range(len(kinds)):
+            cyc = cyclic_kinds(kinds, edges, root)
+            if not cyc:
+                continue
+            for op, tmpl in GRAPH_OPS.items():
+                body = tmpl.replace("ROOT2", "h%d" % root).replace("ROOT", "g%d" % root)
+                src = defs + "\n" + (defs2 + "\n" if op == "equal-same" else "") + body
+                label = "graph[root=%s; cycle through %s]" % (kinds[root], "+".join(cyc))
+                cid = "graph|%d|%d|%s" % (gi, root, op)
+                meta[cid] = (label, op, 0, 0, src, True)
+                cases.append({"id": cid, "units": [PRELUDE, src], "timeout_ms": 40000, "mem_mb": 8192})
     results, m = core.run_cases(cases, tag="c18")
     for e in m["harness_errors"]:
         rep.inconclusive_note("harness: %s" % e)
@@ -135,7 +257,7 @@ def main(tier):
             table[(where, op)] = kind
             continue
         us = res["units"]
-        u = us[1] if len(us) > 1 else {}
+        u = us[-1] if len(us) > 1 else {}
         if u.get("panics"):
             rep.violation("C18 %s %s: panic at %s" % (where, op, core.panic_sig(u["panics"][0])), "depth=%d src=%s" % (d, src), replay)
             continue
@@ -149,6 +271,10 @@ def main(tier):
                 rep.add("functional_mismatches_left_to_C11")
         if len(rep.coverage["samples"]) < 8 and (d >= 100000 or cyc):
             rep.sample({"shape": where, "operation": op, "depth": d, "program": src, "outcome": out})
+    for shape in SHAPES:
+        o = table.get((shape, "build"))
+        if o is not None and str(o).startswith("Err "):
+            rep.inconclusive_note("shape %s cannot even be built (%s): it observes nothing" % (shape, o), floor=True)
     rep.note("outcome_table", {"%s / %s" % k: v for k, v in sorted(table.items())})
     rep.assumptions += ["an error value is an accepted outcome; time-outs on deep (non-cyclic) values and address-space-cap "
                         "aborts are inconclusive"]
